@@ -45,17 +45,17 @@ pub proof fn lemma_suffix_boundary(s: Seq<char>, t: Seq<char>)
 //@ rw R1 * ⟦PathBuf::from(⟧ => ⟦PathBuf::from_s(⟧
 //@ ins start
     proof {
-        if path.utf8_ok() && prefix.utf8_ok() && is_prefix(prefix.pstr(), path.pstr()) {
-            lemma_prefix_boundary(path.pstr(), prefix.pstr());
-            assert forall|k: int| 0 <= k <= path.pstr().len() && #[trigger] byte_len(path.pstr().take(k)) == byte_len(prefix.pstr()) implies k == prefix.pstr().len() by {
-                lemma_boundary_unique(path.pstr(), k, prefix.pstr().len() as int); }
+        if path.utf8_ok() && prefix.lu() && is_prefix(prefix.lp(), path.pstr()) {
+            lemma_prefix_boundary(path.pstr(), prefix.lp());
+            assert forall|k: int| 0 <= k <= path.pstr().len() && #[trigger] byte_len(path.pstr().take(k)) == byte_len(prefix.lp()) implies k == prefix.lp().len() by {
+                lemma_boundary_unique(path.pstr(), k, prefix.lp().len() as int); }
         }
     }
 //@ endins
-pub fn trim_prefix(path: &PathBuf, prefix: &PathBuf) -> (r: PathBuf)
+pub fn trim_prefix<U: PathLike>(path: &PathBuf, prefix: U) -> (r: PathBuf)
     ensures
-        (path.utf8_ok() && prefix.utf8_ok() && is_prefix(prefix.pstr(), path.pstr())) ==> r.pstr() == path.pstr().skip(prefix.pstr().len() as int),   //@ clause trim_prefix.removes_the_prefix [C15]
-        !(path.utf8_ok() && prefix.utf8_ok() && is_prefix(prefix.pstr(), path.pstr())) ==> r.pstr() == path.pstr() && r.comps() == path.comps(),        //@ clause trim_prefix.otherwise_unchanged [C15]
+        (path.utf8_ok() && prefix.lu() && is_prefix(prefix.lp(), path.pstr())) ==> r.pstr() == path.pstr().skip(prefix.lp().len() as int),   //@ clause trim_prefix.removes_the_prefix [C15]
+        !(path.utf8_ok() && prefix.lu() && is_prefix(prefix.lp(), path.pstr())) ==> r.pstr() == path.pstr() && r.comps() == path.comps(),        //@ clause trim_prefix.otherwise_unchanged [C15]
 //@ body
 
 //@ item trim_suffix file=src/sys/fs/path.rs fn=trim_suffix props=C15,C12
@@ -64,17 +64,17 @@ pub fn trim_prefix(path: &PathBuf, prefix: &PathBuf) -> (r: PathBuf)
 //@ rw R4 * ⟦.chars().count()⟧ => ⟦.chars_count()⟧
 //@ ins start
     proof {
-        if path.utf8_ok() && suffix.utf8_ok() && is_suffix(suffix.pstr(), path.pstr()) {
-            lemma_suffix_boundary(path.pstr(), suffix.pstr());
-            assert forall|k: int| 0 <= k <= path.pstr().len() && #[trigger] byte_len(path.pstr().take(k)) == byte_len(path.pstr()) - byte_len(suffix.pstr()) implies k == path.pstr().len() - suffix.pstr().len() by {
-                lemma_boundary_unique(path.pstr(), k, path.pstr().len() - suffix.pstr().len()); }
+        if path.utf8_ok() && suffix.lu() && is_suffix(suffix.lp(), path.pstr()) {
+            lemma_suffix_boundary(path.pstr(), suffix.lp());
+            assert forall|k: int| 0 <= k <= path.pstr().len() && #[trigger] byte_len(path.pstr().take(k)) == byte_len(path.pstr()) - byte_len(suffix.lp()) implies k == path.pstr().len() - suffix.lp().len() by {
+                lemma_boundary_unique(path.pstr(), k, path.pstr().len() - suffix.lp().len()); }
         }
     }
 //@ endins
-pub fn trim_suffix(path: &PathBuf, suffix: &PathBuf) -> (r: PathBuf)
+pub fn trim_suffix<U: PathLike>(path: &PathBuf, suffix: U) -> (r: PathBuf)
     ensures
-        (path.utf8_ok() && suffix.utf8_ok() && is_suffix(suffix.pstr(), path.pstr())) ==> r.pstr() == path.pstr().take(path.pstr().len() - suffix.pstr().len()) && r.comps() == parse(r.pstr()),   //@ clause trim_suffix.removes_the_suffix [C15]
-        !(path.utf8_ok() && suffix.utf8_ok() && is_suffix(suffix.pstr(), path.pstr())) ==> r.pstr() == path.pstr() && r.comps() == path.comps(),                     //@ clause trim_suffix.otherwise_unchanged [C15]
+        (path.utf8_ok() && suffix.lu() && is_suffix(suffix.lp(), path.pstr())) ==> r.pstr() == path.pstr().take(path.pstr().len() - suffix.lp().len()) && r.comps() == parse(r.pstr()),   //@ clause trim_suffix.removes_the_suffix [C15]
+        !(path.utf8_ok() && suffix.lu() && is_suffix(suffix.lp(), path.pstr())) ==> r.pstr() == path.pstr() && r.comps() == path.comps(),                     //@ clause trim_suffix.otherwise_unchanged [C15]
 //@ body
 
 // ---- mash(dir, base): dir followed by base with every leading separator removed
